@@ -12,6 +12,46 @@ ORACLES = [rc.o1_content_addressed]
 RESTORE = None
 
 
+def same_second_histories(seed, n):
+    """A tracked file is rewritten with other bytes of the SAME size and its new modification time lies in the same whole
+    second as the recorded one (different nanoseconds) - what a fast script, a build step or a restore tool does.  Size and
+    whole-second mtime say "unchanged"; xvc compares the full time stamp, so it is an edit like any other.  Then carry-in
+    with and without --force, track, recheck: whatever is committed goes to the address of ITS bytes and the object of the
+    earlier version keeps its bytes (o1)."""
+    import random
+    from repo_check import W, T, CI, RC
+    import repo_harness as rh
+    rng = random.Random(f'c02-same-second-{seed}')
+    out = []
+    follow = ['carryin-force', 'carryin', 'track', 'track-force', 'recheck-force+carryin-force', 'carryin-force-many', 'carryin-force-twice']
+    methods = ['copy', 'symlink', 'hardlink', 'reflink']
+    for i in range(n):
+        f = follow[i % len(follow)]
+        m = methods[(i // len(follow) + i) % 4]
+        cfg = {'algo': (i + seed) % 4, 'method': rng.choice(['copy', m]), 'tob': rng.choice(['auto', 'binary', 'text'])}
+        p, q = rng.sample(['data.bin', 'd/t.txt', 'noext', 'sp ace.csv', 'ünï/dätä.txt'], 2)
+        X = bytes(f'version one of {i}/{seed} ', 'ascii') + bytes(rng.choice(b'abcdefgh') for _ in range(rng.choice([3, 30, 9000]))) + rng.choice([b'\n', b'\r\n', b'\x00\n'])
+        Y = rh.same_size_variant(X)
+        Z = rh.same_size_variant(Y)
+        np_ = lambda: rng.random() < 0.5
+        ss = lambda path, b: dict(W(path, b), same_second=True, cname='same-size')
+        h = [W(p, X), W(q, b'other ' + X), T([p, q], method=m, no_parallel=np_()), ss(p, Y)]
+        if f == 'carryin-force': h += [CI([p], force=True, no_parallel=np_())]
+        elif f == 'carryin': h += [CI([p], no_parallel=np_()), CI([p], force=True, no_parallel=np_())]
+        elif f == 'track': h += [T([p], no_parallel=np_()), CI([p], force=True)]
+        elif f == 'track-force': h += [T([p], force=True, no_parallel=np_())]
+        elif f == 'recheck-force+carryin-force': h += [RC([p], force=True), ss(p, Z), CI([p], force=True, no_parallel=np_())]
+        elif f == 'carryin-force-many': h += [CI([q, p], force=True, no_parallel=np_())]
+        else: h += [CI([p], force=True, no_parallel=np_()), ss(p, Z), CI([p], force=True, no_parallel=np_())]
+        h += [{'op': 'delete', 'path': p}, RC([p, q])]
+        out.append((f'same-second-{f}-{m}-{i}', cfg, h))
+    return out
+
+
+def extra_corpus(chk):
+    return same_second_histories(chk.seed, 28 if chk.tier == 'quick' else 280)
+
+
 def run(chk):
     try:
         ex = extract_addr.generate(REPO, os.path.join(VERIF, 'lean', 'XvcRepo', 'XvcRepo', 'Gen'))
@@ -21,7 +61,7 @@ def run(chk):
                                     'errors': [f'translator/extract_addr.py: {e}'],
                                     'note': 'the Rust source no longer has the shape the address-format model transcribes; Gen/Addr.lean left as it was'})
     chk.trusted_base.append('translator/extract_addr.py (anchored extraction of the strum prefixes, DIGEST_LENGTH, the two split_at of cache_dir and the file name format; fails loudly)')
-    return rc.run_property(chk, 'C02', ORACLES, restore=RESTORE)
+    return rc.run_property(chk, 'C02', ORACLES, restore=RESTORE, extra_corpus=extra_corpus(chk))
 
 
 def replay(chk, data):
